@@ -107,6 +107,30 @@ pub fn bucket(n: usize) -> &'static str {
 // ---------------------------------------------------------------------------------- C02
 
 pub fn gen_c02(r: &mut Rng, id: usize, _thorough: bool) -> Group {
+    if r.below(10) == 0 {
+        // rows that are COMPUTED, at the edge of the double range: whatever is printed must still be JSON
+        // (an overflowing product times zero, zero by zero, remainders by zero, sums that leave the range)
+        let exprs = ["(* 1e308 10 .x)", "(* .x 1e308 10)", "(/ .x .x)", "(/ 0 .x)", "(/ .x 0)", "(% 1 .x)", "(% 1.5 .x)", "(% .x .x)",
+                     "(* (* 1e308 10) .x)", "(+ 1e308 1e308 .x)", "(- (- -1e308 1e308) .x)", "(sum (push [1e308, 1e308] .x))", "(* 1e308 1e308 0 .x)",
+                     "(* -1e308 10 .x)", "(/ (/ 1e308 1e-308) .x)", "(abs (* 1e308 10 .x))", "(round (* 1e308 10 .x))", "(fold [10, 0] 1e308 (* .so_far .value ^.x))"];
+        let xs = ["0", "0.0", "-0.0", "1", "-1", "1e308", "-1e308", "0.5", "null"];
+        let mut c = base_case(format!("C02-{id}-computed"));
+        let nsel = r.range(1, 3);
+        for i in 0..nsel {
+            c.spec.selects.push(format!("{}=c{i}", r.ps(&exprs)));
+        }
+        let mut text = String::new();
+        for _ in 0..r.range(1, 4) {
+            text.push_str(&format!("{{\"x\":{}}}\n", r.ps(&xs)));
+        }
+        c.sources.push(stdin_src(text.into_bytes()));
+        c.spec.jstyle = match r.below(4) { 0 => None, 1 => Some("one-line".into()), 2 => Some("consise".into()), _ => Some("pretty".into()) };
+        let mut g = Group::new(vec![c]);
+        g.tag = "computed".into();
+        g.nontrivial = true;
+        g.labels.push("kind:computed-edge".into());
+        return g;
+    }
     let utf8 = r.chance(50);
     // astral characters only with --utf8-strings (without it: known finding F3)
     let o = GenOpts { astral: utf8, ..Default::default() };
